@@ -91,14 +91,11 @@ func exerciseNode(st *Store, n datamodel.Node, xs *exerciseStats, keysToTry []st
 			for _, s := range [][2]int64{{0, io.SeekEnd}, {3, io.SeekStart}, {1, io.SeekCurrent}, {-1, io.SeekStart}, {-2, io.SeekCurrent}, {-1000, io.SeekEnd}, {100, io.SeekStart}, {1 << 40, io.SeekStart}, {0, io.SeekStart}, {-3, io.SeekEnd}} {
 				_, _ = rs.Seek(s[0], int(s[1]))
 				zero := 0
-				for i := 0; i < 4; i++ {
+				for i := 0; i < 4; i++ { // keep reading after an error: a failed read must leave the reader usable
 					k, err := rs.Read(buf)
 					xs.bytesRead += k
 					if k == 0 && err == nil {
 						zero++
-					}
-					if err != nil {
-						break
 					}
 				}
 				_ = zero
@@ -106,11 +103,16 @@ func exerciseNode(st *Store, n datamodel.Node, xs *exerciseStats, keysToTry []st
 			_, _ = rs.Seek(0, io.SeekStart)
 			total, zero := 0, 0
 			big := make([]byte, 4096)
+			errs := 0
 			for {
 				k, err := rs.Read(big)
 				total += k
 				if err != nil {
-					break
+					errs++
+					if err == io.EOF || errs > 3 { // retry a failing read a few times, as a caller polling the reader would
+						break
+					}
+					continue
 				}
 				if k == 0 {
 					zero++
